@@ -85,6 +85,8 @@ class CFG:
         self._removed_edges = set()
 
     def _new(self, kind, astnode=None, label="", extra=None):
+        if extra is None:
+            extra = tuple(getattr(self, "_cur_loops", ()))
         n = Node(len(self.nodes), kind, astnode, label, extra)
         self.nodes.append(n)
         self.succ[n.id] = []
@@ -240,6 +242,11 @@ class CFG:
         if not bad:
             return True, None
         return False, self.path(list(a_nodes), bad, avoid=r_nodes)
+
+    def loops_of(self, nid):
+        """Ids of the loop headers enclosing node nid (outermost first)."""
+        e = self.nodes[nid].extra
+        return e if isinstance(e, tuple) else ()
 
     def live_nodes(self):
         return self.reachable_from_entry()
@@ -431,7 +438,9 @@ class Builder:
             after = []
             lctx = ctx.replace(on_break=lambda src: after.append((src, "")), on_continue=lambda src: g._edge(src, t.id, ""))
             cv = _const_truth(s.test)
+            g._cur_loops = tuple(getattr(g, "_cur_loops", ())) + (t.id,)
             body_out = self._block(s.body, [(t.id, "T")], lctx) if cv is not False else []
+            g._cur_loops = g._cur_loops[:-1]
             self._connect(body_out, t.id)
             if cv is not True:
                 if s.orelse:
@@ -446,7 +455,9 @@ class Builder:
                 ctx.on_exc(h.id)
             after = []
             lctx = ctx.replace(on_break=lambda src: after.append((src, "")), on_continue=lambda src: g._edge(src, h.id, ""))
+            g._cur_loops = tuple(getattr(g, "_cur_loops", ())) + (h.id,)
             body_out = self._block(s.body, [(h.id, "T")], lctx)
+            g._cur_loops = g._cur_loops[:-1]
             self._connect(body_out, h.id)
             if s.orelse:
                 after += self._block(s.orelse, [(h.id, "F")], ctx)
